@@ -176,6 +176,14 @@ class RecordingPolicy(serialization.PyrefPolicy):
     return ans
 
 
+class RecordingSubclassPolicy(serialization.DefaultPyrefPolicy):
+  """The same, written the natural way for a TIGHTER policy: a subclass of the default policy."""
+
+  __init__ = RecordingPolicy.__init__
+  allows_import = RecordingPolicy.allows_import
+  allows_value = RecordingPolicy.allows_value
+
+
 class ImportRecorder:
   """Stands in for the `importlib` name inside the serialization module."""
 
@@ -605,7 +613,8 @@ def run_hostile_case(rng, acc):
   acc.obs('hostile:' + mutation)
   sys.modules.pop('vt.hostile', None)
   imports_before, calls_before = vflags.HOSTILE_IMPORTS, vflags.HOSTILE_CALLS
-  policy = RecordingPolicy(restrictive=True)
+  policy = rng.choice([RecordingPolicy, RecordingSubclassPolicy])(restrictive=True)
+  acc.obs('restrictive_policy:' + type(policy).__name__)
 
   def witness(**kw):
     w = {'mutation': mutation, 'target': target, 'value': gen.sketch(root)}
